@@ -68,6 +68,7 @@ type script struct {
 	Steps     []exchange
 	CloseCode int
 	CloseKind int  // 0 short reason, 1 long reason, 2 invalid code with a long reason, 3 invalid UTF-8 in a long reason, 4 no reason, 5 no status code at all (empty close frame)
+	DeprExt   bool // SrvKind 1 with compression: the server selects through the deprecated Upgrader.Extension callback (every offered permessage-deflate option is accepted as it is)
 	SrvCloses bool // the server starts the closing handshake (the client answers it)
 	WSS       bool // the client first probes a wss:// dial through the default TLS client (the peer never answers)
 	BadReq    int  // > 0: the client sends a request the upgrader refuses (1 no Upgrade header, 2 version 12, 3 POST); the upgrader adds a header of this session to its answer
@@ -170,6 +171,7 @@ func makeScript(seed uint64) *script {
 		sc.CloseKind = 5
 	}
 	sc.SrvCloses = p.intn(3) == 0
+	sc.DeprExt = sc.SrvKind == 1 && sc.Flate && !sc.Exact && p.intn(3) == 0
 	if sc.Steps[len(sc.Steps)-1].Kind != exBadText && p.intn(6) == 0 {
 		sc.Steps = append(sc.Steps, exchange{Kind: exCutPing, FromCli: p.intn(2) == 0, PingLen: []int{1, 2, 60, 63, 64, 100, 125}[p.intn(7)], Seed: p.next()})
 	}
@@ -558,6 +560,10 @@ func runServer(sc *script, conn net.Conn, tr *transcript) {
 		u := ws.Upgrader{Protocol: func(p []byte) bool { return accept(string(p)) }}
 		if sc.Flate {
 			u.Negotiate = ext.Negotiate
+		}
+		if sc.DeprExt {
+			u.Negotiate = nil
+			u.Extension = func(o httphead.Option) bool { return string(o.Name) == wsflate.ExtensionName }
 		}
 		if sc.LongHdr {
 			want := longValue(sc.Seed)
